@@ -105,6 +105,13 @@ func FromBytes(data []byte) (*Labels, error) {
 // length or missing bytes.
 var ErrBufferTooShort = errors.New("rfc1035label: buffer too short")
 
+// maxNameLength is the maximum length of a domain name on the wire (RFC 1035,
+// Section 2.3.4).
+const maxNameLength = 255
+
+// ErrNameTooLong is returned when a domain name exceeds 255 octets.
+var ErrNameTooLong = errors.New("rfc1035label: name exceeds 255 octets")
+
 // fromBytes decodes a serialized stream and returns a list of labels
 func labelsFromBytes(buf []byte) ([]string, error) {
 	var (
@@ -156,6 +163,13 @@ func labelsFromBytes(buf []byte) ([]string, error) {
 			}
 			label += chunk
 			pos += length
+			// RFC 1035, Section 2.3.4: a name is at most 255 octets on the
+			// wire (a length octet per label plus the terminating zero).
+			// Without this limit compression pointers can re-emit an
+			// arbitrarily long name once per two input bytes.
+			if len(label)+2 > maxNameLength {
+				return nil, ErrNameTooLong
+			}
 		}
 	}
 	return labels, nil
